@@ -152,17 +152,17 @@ Proof.
 Qed.
 
 (* the regenerated tables stay folded: nothing below depends on what they contain *)
-Local Opaque tcp_disconnect_hook tcp_suppress tcp_init_stack tcp_init_reraises misc_disconnect_after_connection
+Local Opaque tcp_disconnect_hook tcp_suppress tcp_init_stack tcp_init_reraises misc_disconnect_after_connection receiver_next_protected
              listener_connect tls_wrap udp_aexit stream_close_pushed_first udp_done_in_finally udp_done_marks_first.
 
 (* ---- TCP client task ---- *)
-Lemma tcp_client_task_sim tls p e1 e1' e2 e2' :
+Lemma tcp_client_task_main_sim tls p e1 e1' e2 e2' :
   sim e1 e1' -> osim e2 e2' ->
-  osim (o_raises (tcp_client_task tls p e1 e2)) (o_raises (tcp_client_task tls p e1' e2')) /\
-  o_logs (tcp_client_task tls p e1 e2) = o_logs (tcp_client_task tls p e1' e2') /\
-  o_hooks (tcp_client_task tls p e1 e2) = o_hooks (tcp_client_task tls p e1' e2').
+  osim (o_raises (tcp_client_task_main tls p e1 e2)) (o_raises (tcp_client_task_main tls p e1' e2')) /\
+  o_logs (tcp_client_task_main tls p e1 e2) = o_logs (tcp_client_task_main tls p e1' e2') /\
+  o_hooks (tcp_client_task_main tls p e1 e2) = o_hooks (tcp_client_task_main tls p e1' e2').
 Proof.
-  intros H1 H2. unfold tcp_client_task.
+  intros H1 H2. unfold tcp_client_task_main.
   set (run_disc := if misc_disconnect_after_connection then pos_connected p else true).
   set (raised0 := match p with PDisconnect => None | _ => Some e1 end).
   set (raised0' := match p with PDisconnect => None | _ => Some e1' end).
@@ -196,6 +196,18 @@ Proof.
   - destruct (existsb (is_item SSuppress) (tcp_init_stack tls)).
     + destruct (layers_run_sim tcp_suppress _ _ H) as [A B C]. simpl. repeat split; auto. congruence.
     + simpl. repeat split; auto. now constructor.
+Qed.
+
+Lemma tcp_client_task_sim tls p e1 e1' e2 e2' :
+  sim e1 e1' -> osim e2 e2' ->
+  osim (o_raises (tcp_client_task tls p e1 e2)) (o_raises (tcp_client_task tls p e1' e2')) /\
+  o_logs (tcp_client_task tls p e1 e2) = o_logs (tcp_client_task tls p e1' e2') /\
+  o_hooks (tcp_client_task tls p e1 e2) = o_hooks (tcp_client_task tls p e1' e2').
+Proof.
+  intros H1 H2. unfold tcp_client_task.
+  destruct p; try (apply tcp_client_task_main_sim; assumption);
+    destruct receiver_next_protected;
+    solve [apply tcp_client_task_main_sim; assumption | simpl; repeat split; apply osim_refl].
 Qed.
 
 (* ---- canonical forms ---- *)
